@@ -883,11 +883,22 @@ int yr_ac_add_string(
 // Compiles the Aho-Corasick automaton, the resulting data structures are
 // are written in the provided arena.
 //
+#ifdef YARA_VERIF
+// Verification hook H8: the logical size of the transition / match tables once
+// they are built, to be compared with what the arena holds for them.
+void (*yr_verif_ac_tables_hook)(YR_AC_AUTOMATON* automaton) = NULL;
+#endif
+
 int yr_ac_compile(YR_AC_AUTOMATON* automaton, YR_ARENA* arena)
 {
   FAIL_ON_ERROR(_yr_ac_create_failure_links(automaton));
   FAIL_ON_ERROR(_yr_ac_optimize_failure_links(automaton));
   FAIL_ON_ERROR(_yr_ac_build_transition_table(automaton));
+
+#ifdef YARA_VERIF
+  if (yr_verif_ac_tables_hook != NULL)
+    yr_verif_ac_tables_hook(automaton);
+#endif
 
   return ERROR_SUCCESS;
 }
